@@ -103,11 +103,16 @@ func runC04(c *Ctx) {
 		return
 	}
 	guarded := map[*types.Var]bool{setVar: true}
+	// the link fields: every field of the list and node types that points to a node
+	nodeT := c.Named(c.Client, "hNode")
 	for _, tn := range []string{"hList", "hNode"} {
-		st, _ := c.Named(c.Client, tn).Underlying().(*types.Struct)
+		nt := c.Named(c.Client, tn)
+		if nt == nil {
+			continue
+		}
+		st, _ := nt.Underlying().(*types.Struct)
 		for i := 0; st != nil && i < st.NumFields(); i++ {
-			switch st.Field(i).Name() {
-			case "start", "end", "next", "prev":
+			if _, isPtr := st.Field(i).Type().Underlying().(*types.Pointer); isPtr && namedOf(st.Field(i).Type()) == nodeT && nodeT != nil {
 				guarded[st.Field(i)] = true
 			}
 		}
@@ -794,7 +799,7 @@ func (c *Ctx) isHSetStringMap(fv *types.Var, base ssa.Value) bool {
 		t = pt.Elem()
 	}
 	n, ok := t.(*types.Named)
-	return ok && n.Obj().Pkg() == c.Client.Pkg && (n.Obj().Name() == "hSet" || n.Obj().Name() == "hList")
+	return ok && n.Obj().Pkg() == c.Client.Pkg && (n.Obj().Name() == c.nm("hSet") || n.Obj().Name() == c.nm("hList"))
 }
 
 // noLockAcrossHandlers: no handler invocation, go statement or WaitGroup.Wait
@@ -865,7 +870,7 @@ func (c *Ctx) lockFieldName(pk *ssa.Package, typ string) string {
 		for i := 0; i < st.NumFields(); i++ {
 			switch typeString(st.Field(i).Type()) {
 			case "sync.Mutex", "sync.RWMutex":
-				return pk.Pkg.Name() + "." + typ + "." + st.Field(i).Name()
+				return pk.Pkg.Name() + "." + nt.Obj().Name() + "." + st.Field(i).Name()
 			}
 		}
 	}
